@@ -23,6 +23,7 @@ const (
 	c20MarkClose = 2
 	c20MarkCbBegin = 10
 	c20MarkCbEnd   = 11
+	c20MarkCbMid   = 12 // only in the recycle-under-OnData scenario: a pause between Peek and ReadBytes
 	// value of streamLocalHalfClosed (the state Close() moves an open stream to while a callback goroutine
 	// runs).  Kept numeric so that this harness also builds against a tree without that constant; the value
 	// is pinned by the model comparison (the CAS in Close() logs it).
@@ -38,6 +39,7 @@ type c20Case struct {
 	Inb      [][]int     `json:"inb"` // one entry per inbound event; empty = close notification of the peer
 	NCl      int         `json:"ncl"`
 	Setter   bool        `json:"setter"`
+	MidYield bool        `json:"mid_yield"` // OnData pauses between Peek and ReadBytes and then checks that its view is still owned
 	Script   [][2]int    `json:"script"` // per OnData invocation: bytes to consume, 1 = call Close inside
 	Steps    []vsStepRec `json:"steps"`
 	Offers   [][]int     `json:"offers"`
@@ -71,6 +73,10 @@ type c20Cb struct {
 	offerStep   []int
 	consumed    []int
 	closeInside int
+	midYield    bool
+	bm          *bufferManager
+	offs        *[]uint32 // shared-memory offsets of the arrivals, in order
+	viewFreed   bool      // a buffer whose bytes OnData was holding was back on the free list
 	local       int
 	remote      int
 	step        *int
@@ -93,6 +99,17 @@ func (cb *c20Cb) OnData(r BufferReader) {
 	cb.offers = append(cb.offers, seen)
 	cb.offerState = append(cb.offerState, atomic.LoadUint32(&cb.stream.state))
 	cb.offerStep = append(cb.offerStep, *cb.step)
+	if cb.midYield && n > 0 {
+		// OnData holds the zero-copy view returned by Peek and has released nothing; let the others run
+		c20Mark(c20MarkCbMid)
+		if cb.offs != nil && len(*cb.offs) > 0 {
+			off := (*cb.offs)[0] // the first arrival is (part of) what was offered and nothing was consumed yet
+			if !bufferHeader(cb.bm.mem[off : off+bufferHeaderSize]).isInUsed() {
+				cb.viewFreed = true
+			}
+		}
+		n = r.Len()
+	}
 	k, cl := n, 0
 	if cb.next < len(cb.script) {
 		k, cl = cb.script[cb.next][0], cb.script[cb.next][1]
@@ -120,6 +137,7 @@ func (cb *c20Cb) OnRemoteClose() { cb.remote++ }
 
 type c20Env struct {
 	client, server *Session
+	offs           []uint32 // offsets of the arrivals of the current case
 }
 
 func c20NewEnv() *c20Env {
@@ -127,7 +145,7 @@ func c20NewEnv() *c20Env {
 	conf.QueueCap = 4096
 	conf.InitializeTimeout = 30 * time.Second // the default 1 s handshake bound is too short on a loaded machine
 	c, s := newClientServerWithNoCheck(conf)
-	return &c20Env{c, s}
+	return &c20Env{client: c, server: s}
 }
 func (e *c20Env) close() {
 	e.client.Close()
@@ -147,6 +165,7 @@ func c20Wrapper(env *c20Env, data []int) bufferSliceWrapper {
 	}
 	sl.append(b...)
 	sl.update()
+	env.offs = append(env.offs, sl.offsetInShm)
 	return bufferSliceWrapper{offset: sl.offsetInShm}
 }
 
@@ -174,7 +193,8 @@ func c20Run(env *c20Env, c c20Case, mk func() vsChooser, maxSteps int) c20Case {
 	}
 	id := s.id
 	stepNo := 0
-	cb := &c20Cb{stream: s, script: c.Script, step: &stepNo}
+	env.offs = nil
+	cb := &c20Cb{stream: s, script: c.Script, step: &stepNo, midYield: c.MidYield, bm: env.client.bufferManager, offs: &env.offs}
 	if c.Cb0 {
 		if err := s.SetCallbacks(cb); err != nil {
 			panic(err)
@@ -273,6 +293,9 @@ func c20Run(env *c20Env, c c20Case, mk func() vsChooser, maxSteps int) c20Case {
 	or := map[string]bool{}
 	if !finished {
 		or["run did not reach quiescence within the step bound"] = true
+	}
+	if cb.viewFreed {
+		or["zero-copy: a buffer whose bytes OnData was still holding (Peek, nothing released) was returned to the free list by the event loop's closed path (fillDataToReadBuffer: recvBuf.recycle) while OnData was running"] = true
 	}
 	if cb.overlap {
 		or["serial: OnData began while another OnData of the same stream was running"] = true
@@ -699,6 +722,11 @@ func TestVerif_C20(t *testing.T) {
 		id++
 		late++
 	}
+	// ---- Close() that read callbackInProcess = 0, a goroutine spawned right after, the next arrival sees closed ----
+	o.emit(c20Run(env, c20Case{ID: id, Kind: "recycle-under-ondata", Strat: "fixed-prefix", Cmp: false, Cb0: true, NCl: 1, MidYield: true,
+		Inb: [][]int{{1, 2, 3}, {4}}, Script: [][2]int{{3, 0}}},
+		func() vsChooser { return c20PrefixChooser([]int{1, 1, 0, 0, 0, 2, 2, 1, 1, 1, 0, 0, 2}) }, 3000))
+	id++
 	for k := 0; k < n/10; k++ {
 		c := c20Case{ID: id, Kind: "late-setcb", Cmp: true, Cb0: false, Setter: true}
 		c.Inb = c20GenInb(r, 1+r.intn(3), 0)
